@@ -3,8 +3,10 @@
     Dashu.Ratio.RatioOrdProofs.  [w] is the word size (any w > 0), [B] the float base (any B >= 2),
     [digits_ub] any admissible over-estimate of the digit count (Repr::digits_ub). *)
 From Dashu Require Import Base.Prelude Base.Words.
-From Dashu Require Import Int.ReprOrdModel Int.ReprOrdProofs.
-From Dashu Require Import Float.FloatOrdModel Float.FloatOrdProofs Float.FloatOrdTotal.
+From Dashu Require Import Int.RingOps Int.BitsKernels Int.BitsSpec.
+From Dashu Require Import Float.RoundSpec Float.Contract Float.Model Float.TextIoModel Float.RoundOpsModel.
+From Dashu Require Import Int.ReprOrdModel Int.ReprOrdProofs Int.ReprOrdArith.
+From Dashu Require Import Float.FloatOrdModel Float.FloatOrdProofs Float.FloatOrdTotal Float.FloatOrdProducers.
 From Dashu Require Import Ratio.RatioOrdModel Ratio.RatioOrdProofs.
 Open Scope Z_scope.
 
@@ -248,3 +250,194 @@ Theorem C05_rbig_cmp_eq_iff_eq : forall a b, reduced a -> reduced b ->
   (q_repr_cmp false a b = Eq <-> rbig_eq a b = true).
 Proof. exact rbig_cmp_eq_iff_eq. Qed.
 Print Assumptions C05_rbig_cmp_eq_iff_eq.
+
+(* ================================================================== added by the deepening pass *)
+
+(* ------------------------------------------------------------------ integers: remaining constructors, the run-time check *)
+
+Theorem C05_from_word : forall w, 0 < w -> forall n, 0 <= n < Words.B w ->
+  canonical w (ReprOrdModel.from_word n) /\ rvalue w (ReprOrdModel.from_word n) = n.
+Proof. exact from_word_ok. Qed.
+Print Assumptions C05_from_word.
+
+Theorem C05_from_ref : forall w, 0 < w -> forall r, canonical w r ->
+  canonical w (from_ref w (as_typed w r)) /\ rvalue w (from_ref w (as_typed w r)) = Z.abs (rvalue w r).
+Proof. exact from_ref_ok. Qed.
+Print Assumptions C05_from_ref.
+
+(** the boolean the oracle evaluates on every representation the implementation reports IS the invariant *)
+Theorem C05_layout_check_is_invariant : forall w r, canonicalb w r = true <-> canonical w r.
+Proof. exact canonicalb_ok. Qed.
+Print Assumptions C05_layout_check_is_invariant.
+
+Theorem C05_is_zero : forall w, 0 < w -> forall r, canonical w r -> (r_is_zero r = true <-> rvalue w r = 0).
+Proof. exact r_is_zero_value. Qed.
+Print Assumptions C05_is_zero.
+
+(* ------------------------------------------------------------------ integers: arithmetic results are canonical
+   (C01's and C09's as-is operator models composed with Repr::as_sign_typed / from_typed / with_sign) *)
+
+Theorem C05_ibig_add : forall w, 8 <= w -> forall o c a b, canonical w a -> canonical w b ->
+  exists r, ibig_add w o c a b = Ok r /\ canonical w r /\ rvalue w r = rvalue w a + rvalue w b.
+Proof. exact ibig_add_ok. Qed.
+Print Assumptions C05_ibig_add.
+
+Theorem C05_ibig_sub : forall w, 8 <= w -> forall o c a b, canonical w a -> canonical w b ->
+  exists r, ibig_sub w o c a b = Ok r /\ canonical w r /\ rvalue w r = rvalue w a - rvalue w b.
+Proof. exact ibig_sub_ok. Qed.
+Print Assumptions C05_ibig_sub.
+
+Theorem C05_ibig_mul : forall w, 8 <= w -> forall c a b, canonical w a -> canonical w b ->
+  exists r, ibig_mul w c a b = Ok r /\ canonical w r /\ rvalue w r = rvalue w a * rvalue w b.
+Proof. exact ibig_mul_ok. Qed.
+Print Assumptions C05_ibig_mul.
+
+Theorem C05_ibig_sqr : forall w, 8 <= w -> forall c a, canonical w a ->
+  exists r, ibig_sqr w c a = Ok r /\ canonical w r /\ rvalue w r = rvalue w a * rvalue w a.
+Proof. exact ibig_sqr_ok. Qed.
+Print Assumptions C05_ibig_sqr.
+
+Theorem C05_ibig_cubic : forall w, 8 <= w -> forall c a, canonical w a ->
+  exists r, ibig_cubic w c a = Ok r /\ canonical w r /\ rvalue w r = rvalue w a * rvalue w a * rvalue w a.
+Proof. exact ibig_cubic_ok. Qed.
+Print Assumptions C05_ibig_cubic.
+
+Theorem C05_ubig_sub : forall w, 8 <= w -> forall o c a b, canonical w a -> canonical w b ->
+  0 <= rvalue w a -> 0 <= rvalue w b ->
+  if rvalue w a <? rvalue w b then ubig_sub w o c a b = Panic NegativeUBig
+  else exists r, ubig_sub w o c a b = Ok r /\ canonical w r /\ rvalue w r = rvalue w a - rvalue w b.
+Proof. exact ubig_sub_ok. Qed.
+Print Assumptions C05_ubig_sub.
+
+Theorem C05_ubig_bit : forall w, 8 <= w -> forall f c a b, canonical w a -> canonical w b ->
+  canonical w (ubig_bit w f c a b) /\
+  rvalue w (ubig_bit w f c a b) = bit_spec f (Z.abs (rvalue w a)) (Z.abs (rvalue w b)).
+Proof. exact ubig_bit_ok. Qed.
+Print Assumptions C05_ubig_bit.
+
+Theorem C05_ubig_shift : forall w, 8 <= w -> forall f c a n, canonical w a -> 0 <= n ->
+  canonical w (ubig_shift w f c a n) /\ rvalue w (ubig_shift w f c a n) = shift_spec f (Z.abs (rvalue w a)) n.
+Proof. exact ubig_shift_ok. Qed.
+Print Assumptions C05_ubig_shift.
+
+(** histories that mix constructors, copies, sign changes, in-place updates and arithmetic *)
+Theorem C05_arith_history_canonical : forall w, 8 <= w -> forall os p, Forall (canonical w) p -> Forall (aop_ok w) os ->
+  Forall (canonical w) (arun w p os).
+Proof. exact arun_canonical. Qed.
+Print Assumptions C05_arith_history_canonical.
+
+Theorem C05_arith_history_values_compare : forall w, 8 <= w -> forall os a b, Forall (aop_ok w) os ->
+  In a (arun w [] os) -> In b (arun w [] os) ->
+  (repr_eq a b = true <-> rvalue w a = rvalue w b) /\
+  ibig_cmp w a b = (rvalue w a ?= rvalue w b) /\
+  (ibig_cmp w a b = Eq <-> repr_eq a b = true) /\
+  (rvalue w a = rvalue w b -> hash_input a = hash_input b).
+Proof. exact arith_history_values_compare. Qed.
+Print Assumptions C05_arith_history_values_compare.
+
+(* ------------------------------------------------------------------ floats: every modelled producer returns a normalised Repr *)
+
+Theorem C05_float_new_normalized : forall B, 2 <= B -> forall s e, nz B (Model.normalize B s e).
+Proof. exact new_nz. Qed.
+Print Assumptions C05_float_new_normalized.
+
+(** C05's three-branch model of Repr::normalize and C03's generic one are the same function *)
+Theorem C05_float_normalize_models_agree : forall B, 2 <= B -> forall s e,
+  FloatOrdModel.normalize B (FR s e) = Ok (fr (Model.normalize B s e)).
+Proof. exact normalize_models_agree. Qed.
+Print Assumptions C05_float_normalize_models_agree.
+
+Theorem C05_float_convert_base_normalized : forall NB, 2 <= NB -> forall B p m s e s' e' f,
+  convert_base_asis B NB p m s e = CDone s' e' f -> nz NB (s', e').
+Proof. exact convert_base_nz. Qed.
+Print Assumptions C05_float_convert_base_normalized.
+
+Theorem C05_float_with_precision_normalized : forall B, 2 <= B -> forall p0 p m s e, nz B (s, e) ->
+  nz B (fst (TextIoModel.with_precision_asis B p0 p m s e)).
+Proof. exact with_precision_c08_nz. Qed.
+Print Assumptions C05_float_with_precision_normalized.
+
+Theorem C05_float_with_precision_normalized' : forall B, 2 <= B -> forall pinned m p s e np, nz B (s, e) ->
+  nz B (approx_pair (RoundOpsModel.with_precision_asis B pinned m p s e np)).
+Proof. exact with_precision_c10_nz. Qed.
+Print Assumptions C05_float_with_precision_normalized'.
+
+Theorem C05_float_mul_normalized : forall B, 2 <= B -> forall p m s1 e1 s2 e2,
+  nz B (approx_pair (norm_approx B (ctx_mul B p m s1 e1 s2 e2))).
+Proof. exact ctx_mul_nz. Qed.
+Print Assumptions C05_float_mul_normalized.
+
+Theorem C05_float_sqr_normalized : forall B, 2 <= B -> forall p m s e,
+  nz B (approx_pair (norm_approx B (ctx_sqr B p m s e))).
+Proof. exact ctx_sqr_nz. Qed.
+Print Assumptions C05_float_sqr_normalized.
+
+Theorem C05_float_cubic_normalized : forall B, 2 <= B -> forall p m s e,
+  nz B (approx_pair (norm_approx B (ctx_cubic B p m s e))).
+Proof. exact ctx_cubic_nz. Qed.
+Print Assumptions C05_float_cubic_normalized.
+
+Theorem C05_float_trunc_normalized : forall B, 2 <= B -> forall digits_ub p s e, nz B (s, e) ->
+  nz B (fl_pair (trunc_asis B digits_ub p s e)).
+Proof. exact trunc_nz. Qed.
+Print Assumptions C05_float_trunc_normalized.
+
+Theorem C05_float_fract_normalized : forall B, 2 <= B -> forall digits_ub pinned p s e,
+  nz B (fl_pair (fract_asis B digits_ub pinned p s e)).
+Proof. exact fract_nz. Qed.
+Print Assumptions C05_float_fract_normalized.
+
+Theorem C05_float_split_normalized : forall B, 2 <= B -> forall digits_ub p s e, nz B (s, e) ->
+  nz B (fl_pair (fst (split_asis B digits_ub p s e))) /\ nz B (fl_pair (snd (split_asis B digits_ub p s e))).
+Proof. exact split_nz. Qed.
+Print Assumptions C05_float_split_normalized.
+
+Theorem C05_float_ceil_normalized : forall B, 2 <= B -> forall digits_ub pinned p s e r, nz B (s, e) ->
+  ceil_asis B digits_ub pinned p s e = Ok r -> nz B (fl_pair r).
+Proof. exact ceil_nz. Qed.
+Print Assumptions C05_float_ceil_normalized.
+
+Theorem C05_float_floor_normalized : forall B, 2 <= B -> forall digits_ub pinned p s e r, nz B (s, e) ->
+  floor_asis B digits_ub pinned p s e = Ok r -> nz B (fl_pair r).
+Proof. exact floor_nz. Qed.
+Print Assumptions C05_float_floor_normalized.
+
+Theorem C05_float_round_normalized : forall B, 2 <= B -> forall digits_ub pinned p s e r, nz B (s, e) ->
+  round_asis B digits_ub pinned p s e = Ok r -> nz B (fl_pair r).
+Proof. exact round_nz. Qed.
+Print Assumptions C05_float_round_normalized.
+
+Theorem C05_float_producers_normalized : forall B x, 2 <= B -> produced B x -> fwf x /\ normalized_ext B x.
+Proof. exact produced_normalized. Qed.
+Print Assumptions C05_float_producers_normalized.
+
+(** fbig_eq sound on every modelled producer: == is equality of the values, cmp is their order, Equal iff == *)
+Theorem C05_float_eq_sound_on_producers : forall B digits_ub x y, 2 <= B ->
+  (forall s, s <> 0 -> Z.abs s < B ^ (digits_ub s + 1)) ->
+  produced B x -> produced B y ->
+  fbig_eq x y = feq_spec B x y /\
+  repr_cmp_same_base B digits_ub false x y = fcmp_spec B x y /\
+  (repr_cmp_same_base B digits_ub false x y = Eq <-> fbig_eq x y = true).
+Proof. exact fbig_eq_sound_on_producers. Qed.
+Print Assumptions C05_float_eq_sound_on_producers.
+
+Theorem C05_float_eq_sym : forall B a b, feq_spec B a b = feq_spec B b a.
+Proof. exact feq_spec_sym. Qed.
+Print Assumptions C05_float_eq_sym.
+
+Theorem C05_float_eq_trans : forall B, 2 <= B -> forall a b c,
+  feq_spec B a b = true -> feq_spec B b c = true -> feq_spec B a c = true.
+Proof. exact feq_spec_trans. Qed.
+Print Assumptions C05_float_eq_trans.
+
+(* ------------------------------------------------------------------ rationals *)
+
+(** the second bit-length filter of repr_cmp repeats the first condition: it can never fire (dead code, harmless) *)
+Theorem C05_ratio_second_filter_dead : forall lb rb, (lb >? rb + 1) = false -> (rb <? lb - 1) = false.
+Proof. exact q_repr_cmp_second_filter_dead. Qed.
+Print Assumptions C05_ratio_second_filter_dead.
+
+(** the boolean the oracle evaluates on every RBig the implementation reports IS the invariant *)
+Theorem C05_rbig_invariant_check : forall a, reducedb a = true <-> reduced a.
+Proof. exact reducedb_ok. Qed.
+Print Assumptions C05_rbig_invariant_check.
